@@ -24,7 +24,7 @@ def names(rng, n, prefix, pool=None):
 
 
 class Scenario:
-    def __init__(self, n, c, k, sensors, seed=0, transcendental=False, pool=None, linear=False, branchy=False, share_reading=False, rational=False, assumptions=False, nonsmooth=False, passthrough=False, magnitude=False, wrapped=False):
+    def __init__(self, n, c, k, sensors, seed=0, transcendental=False, pool=None, linear=False, branchy=False, share_reading=False, rational=False, assumptions=False, nonsmooth=False, passthrough=False, magnitude=False, wrapped=False, redundant=False):
         self.magnitude = magnitude or wrapped
         self.wrapped = wrapped
         rng = random.Random(seed * 7919 + n * 131 + c * 17 + k * 5 + sum(sensors))
@@ -108,6 +108,17 @@ class Scenario:
                 old = sorted(self.sensor_models[b])[-1]
                 self.sensor_models[b] = {(shared if r == old else r): e for r, e in self.sensor_models[b].items()}
                 self.sensor_noises[b] = {(shared if r == old else r): v for r, v in self.sensor_noises[b].items()}
+        if redundant:
+            # redundant entries: two readings of one sensor with IDENTICAL model expressions (two altimeters), two states with identical
+            # update expressions - anything keyed or sorted by the expression instead of the name ties on them
+            for skey, m in self.sensor_models.items():
+                rn2 = sorted(m)
+                if len(rn2) >= 2:
+                    m[rn2[1]] = m[rn2[0]]
+                    break
+            st = sorted(self.state, key=lambda q: q.name)
+            if len(st) >= 3:
+                self.state_model[st[2]] = self.state_model[st[1]]
         self.process_noise = {u: float(rng.choice([0.5, 1.25, 2.0])) + 0.25 * i for i, u in enumerate(self.control)}
         self.calibration_map = {cs: float(Fraction(rng.randint(-6, 6), 4)) for cs in self.calibration}
 
